@@ -75,6 +75,7 @@ def _required(spec, ts):
 def run_worker_real(job, spec, msgs):
     """drive the REAL entrypoint() in-process; returns one canonical output per message"""
     import types
+    from ekw import sim_ctrl as S_
     import cascade.executor.runner.entrypoint as ep
     import cascade.executor.serde as serde
     from cascade.executor.msg import DatasetPublished, DatasetPurge, TaskSequence, WorkerShutdown
@@ -86,9 +87,9 @@ def run_worker_real(job, spec, msgs):
         if m[0] == "task":
             raw.append(serde.ser_message(TaskSequence(worker=wid, tasks=[f"t{t}" for t in m[1]], publish=set())))
         elif m[0] == "pub":
-            raw.append(serde.ser_message(DatasetPublished(origin=wid, ds=DatasetId(f"t{m[1][0]}", str(m[1][1])), transmit_idx=None)))
+            raw.append(serde.ser_message(DatasetPublished(origin=wid, ds=S_.dsid(m[1]), transmit_idx=None)))
         elif m[0] == "purge":
-            raw.append(serde.ser_message(DatasetPurge(ds=DatasetId(f"t{m[1][0]}", str(m[1][1])))))
+            raw.append(serde.ser_message(DatasetPurge(ds=S_.dsid(m[1]))))
         else:
             raw.append(serde.ser_message(WorkerShutdown()))
     record = []
@@ -118,10 +119,10 @@ def run_worker_real(job, spec, msgs):
             return False
 
         def provide(self, ds, ann):
-            record.append(("provide", [int(ds.task[1:]), int(ds.output)]))
+            record.append(("provide", S_.un_ds(ds)))
 
         def pop(self, ds):
-            record.append(("pop", [int(ds.task[1:]), int(ds.output)]))
+            record.append(("pop", S_.un_ds(ds)))
 
         def flush(self):
             pass
